@@ -31,6 +31,7 @@ theorem nCb_step (c : Cfg) (s : St) (e : Ev) : (step c s e).nCb = s.nCb := by
       · rw [nCb_finish]
   | timeoutTake w => simp only [step]; split <;> rfl
   | timeoutSend w => simp only [step]; split <;> rfl
+  | drop => rfl
 
 theorem nCb_run (c : Cfg) (n : Nat) (evs : List Ev) : (run c n evs).nCb = n := by
   unfold run
@@ -55,6 +56,7 @@ theorem seen_step_other (c : Cfg) (s : St) (e : Ev) (h : ∀ w, e ≠ .arrive w)
       · rw [seen_finish]
   | timeoutTake w => simp only [step]; split <;> rfl
   | timeoutSend w => simp only [step]; split <;> rfl
+  | drop => rfl
 
 /-- only an arrival invokes callbacks -/
 theorem presented_step_other (c : Cfg) (s : St) (e : Ev) (h : ∀ w, e ≠ .arrive w) :
@@ -73,6 +75,7 @@ theorem presented_step_other (c : Cfg) (s : St) (e : Ev) (h : ∀ w, e ≠ .arri
       · rw [presented_finish]
   | timeoutTake w => simp only [step]; split <;> rfl
   | timeoutSend w => simp only [step]; split <;> rfl
+  | drop => rfl
 
 theorem count_range_pairs (w0 n w i : Nat) :
     (((List.range n).map (fun j => (w0, j))).count (w, i)) = if w = w0 ∧ i < n then 1 else 0 := by
@@ -155,6 +158,7 @@ theorem step_cfg_agree (c : Cfg) (s : St) (e : Ev) (hs : NoStale s) (ht : c.tall
   | lookup op w => rfl
   | timeoutTake w => rfl
   | timeoutSend w => rfl
+  | drop => rfl
   | commit op a =>
     simp only [step]
     split
